@@ -35,6 +35,10 @@ TEMPLATES = ['free', 'free', 'free', 'free', 'free', 'free',
              'last_interval', 'triple_cluster', 'boundary', 'tenhz_default',
              'grow_inside', 'empty_table', 'all_lost', 'first_interval',
              'shared_epochs', 'repo_like', 'rounding_hazard', 'rounding_hazard']
+# directed template for known finding F9 (several accurate fixes inside one long IMU gap make
+# the feedback filter diverge); drawn separately with a small probability
+P_FIXES_IN_GAP = 0.0     # (the divergence is too fragile for a template; c09 replays the
+                          #  recorded F9 scenario itself once per batch instead)
 
 
 def rng_of(run_seed):
@@ -386,7 +390,58 @@ def generate(run_seed, filt, profile='sched'):
     raise RuntimeError("generator could not place a world inside the domain fence")
 
 
+def fixes_in_long_gap(sc):
+    """Largest number of distinct measurement epochs strictly inside one IMU interval of
+    at least 0.5 s (feature of known finding F9)."""
+    st = np.asarray(sc['imu']['stamps'], dtype=float)
+    ep = np.unique(np.concatenate([np.asarray(s_['stamps'], dtype=float)
+                                   for s_ in sc['sensors']] + [np.empty(0)]))
+    best = 0
+    for a, b in zip(st[:-1], st[1:]):
+        if b - a >= 0.5:
+            best = max(best, int(((ep > a) & (ep < b)).sum()))
+    return best
+
+
+def _generate_fixes_in_gap(r, filt):
+    """Directed F9 world: a 1.5-3 s IMU data gap with 6-8 accurate position fixes in it."""
+    wd = W.make_world(r)
+    period = [0.02, 0.04, 0.05][int(r.integers(3))]
+    n = int(r.integers(8, 16))
+    st = 100.0 + period * np.arange(n + 1)
+    at = int(r.integers(3, n - 2))
+    gap = float(r.uniform(1.5, 3.0))
+    st[at:] += gap
+    k = int(r.integers(6, 9))
+    fixes = sorted(float(x) for x in r.uniform(st[at - 1] + 0.02, st[at] - 0.02, k))
+    sensors = [dict(cls='Position', sd=float(r.uniform(0.03, 0.08)),
+                    lever=[float(x) for x in r.uniform(-2, 2, 3)] if r.random() < 0.5 else None,
+                    noise_seed=int(r.integers(2 ** 31)), stamps=fixes)]
+    sig = [_logu(r, 0, 0.7), _logu(r, -0.3, 0.5), _logu(r, -0.5, 0.3), _logu(r, -0.3, 0.7)]
+    e = np.clip(r.standard_normal(9), -2, 2)
+    knobs = dict(with_altitude=bool(r.random() < 0.5), time_step=None, initial_size=10000,
+                 measurements_arg='list', rerun=None, gyro_model=None, accel_model=None,
+                 models_omitted=False, sigmas=sig,
+                 init_err=[_f(x) for x in e * np.array([sig[0]] * 3 + [sig[1]] * 3 +
+                                                        [sig[2]] * 2 + [sig[3]])],
+                 gyro_bias=[0.0] * 3, accel_bias=[0.0] * 3)
+    sc = dict(format=1, kind='filter', filter=filt, profile='sched', template='fixes_in_gap',
+              world=wd, imu=dict(type='increment', stamps=[float(x) for x in st]),
+              sensors=sensors,
+              faults=[dict(kind='imu_stall', at=at, gap=gap),
+                      dict(kind='meas_cluster', interval=at - 1, k=k, multi=False)],
+              knobs=knobs)
+    try:
+        if not materialise(sc, fence_only=True)['in_fence']:
+            return None
+    except Exception:
+        return None
+    return sc
+
+
 def _generate_once(r, filt, profile):
+    if filt == 'feedback' and profile == 'sched' and r.random() < P_FIXES_IN_GAP:
+        return _generate_fixes_in_gap(r, filt)
     template = TEMPLATES[int(r.integers(len(TEMPLATES)))]
     enabled = [k for k in FAULT_KINDS if r.random() < 0.3]
     trace = []
